@@ -93,6 +93,11 @@ func (d *dir) DeliverNext() string {
 	if lat > 0 {
 		time.Sleep(lat)
 	}
+	if d.to.IsClosed() {
+		// the reader is gone: the message is dropped on arrival (order-insensitive
+		// with respect to a Close that ran in the same macro-step as the write)
+		return digest(b) + " (dropped: reader closed)"
+	}
 	select {
 	case d.to.in <- b:
 	default:
@@ -155,17 +160,14 @@ func (c *Codec) IsClosed() bool {
 	}
 }
 
-// Close closes this end: its reads end at once, what the peer had in flight
-// towards it is dropped, and the peer sees EOF after the messages already in
-// flight towards it.
+// Close closes this end: its reads end at once, what the peer has in flight
+// towards it is dropped on arrival, and the peer sees EOF after the messages
+// already in flight towards it.
 func (c *Codec) Close() error {
 	if c.IsClosed() {
 		return nil
 	}
 	c.closeLocal()
-	c.peer.out.mu.Lock()
-	c.peer.out.q, c.peer.out.dead = nil, true
-	c.peer.out.mu.Unlock()
 	c.out.mu.Lock()
 	if !c.out.dead {
 		c.out.eof = true
